@@ -82,6 +82,13 @@ func check(ind reg.Ind, c Case, frontier bool) engine.Outcome {
 			return o
 		}
 	}
+	if n > 10000 {
+		// a very long input: the length law (the reference-based probes would take seconds each)
+		o.NonTrivial = true
+		o.Class("very_long_input")
+		o.Key = fmt.Sprint(c.Cfg, n)
+		return o
+	}
 	if c.Bars.HasGaps() {
 		// a series with missing values (NaN): the length law is all that is claimed
 		o.NonTrivial = n > w
@@ -216,6 +223,12 @@ func prop(ind reg.Ind) engine.Prop[Case] {
 			n := rapid.IntRange(0, 2*w+3).Draw(t, "n")
 			if rapid.IntRange(0, 9).Draw(t, "long") == 0 {
 				n = rapid.IntRange(0, 3*w+30).Draw(t, "n2")
+			}
+			if vl := gen.VeryLong(t); vl > 0 {
+				n = vl
+			}
+			if engine.OncePerRun("C02-very-long/" + ind.Name) {
+				n = 1<<16 + 8 // every indicator once per run: beyond 16-bit counters and 65536-value refresh intervals
 			}
 			c := Case{Cfg: cfg, Bars: gen.GenBarsOf(t, n, rapid.SampledFrom([]string{"walk", "walk", "ties", "zeros", "flat"}).Draw(t, "class")), K: rapid.IntRange(0, 1000).Draw(t, "k"), Q: rapid.IntRange(0, 4000).Draw(t, "q")}
 			if rapid.IntRange(0, 7).Draw(t, "with_gaps") == 0 {
